@@ -161,7 +161,7 @@ func checkC13A(c C13ACase) (o Outcome) {
 	args := append(append([]string{"import", cmdName}, c.Args...), file)
 	r := knutio.Run(knutio.Opts{Dir: dir}, args...)
 	o.Evals++
-	if r.TimedOut || r.Signaled || r.Panicked() || r.Exit == 2 {
+	if r.TimedOut || r.Signaled || r.Panicked() {
 		o.Violation = V("crash", "knut %v: %s\n%s", args, r.Brief(), show()).With("importer", c.Importer)
 		return o
 	}
@@ -219,7 +219,7 @@ func checkC13A(c C13ACase) (o Outcome) {
 	for _, cmd := range []string{"check", "print"} {
 		jr := knutio.Run(knutio.Opts{Dir: jdir}, cmd, "j.knut")
 		o.Evals++
-		if jr.TimedOut || jr.Signaled || jr.Panicked() || jr.Exit == 2 {
+		if jr.TimedOut || jr.Signaled || jr.Panicked() {
 			o.Violation = V("crash", "knut %s on the imported journal: %s\n--journal--\n%s\n%s", cmd, jr.Brief(), clip(opens.String()+T, 1500), show()).With("importer", c.Importer).With("cmd", cmd)
 			return o
 		}
